@@ -712,13 +712,17 @@ def call_c18(case):
     """case: {s, variants: [[kind, rewritten]...], kw, settings} -> outcome of s and of each variant"""
     from dateparser.date import DateDataParser, sanitize_date
     st = decode_settings(case.get("settings") or {})
-    p = DateDataParser(settings=st, **(case.get("kw") or {}))
+    kw18 = dict(case.get("kw") or {})
+    fmts18 = kw18.pop("date_formats", None)
+    p = DateDataParser(settings=st, **kw18)
 
     def run(s):
         try:
-            dd = p.get_date_data(s)
+            dd = p.get_date_data(s, fmts18)
             d = dd["date_obj"]
-            return [dt_to_list(d.replace(tzinfo=None)) if d else [], off_of(d) if d else "naive", dd["period"] or "", dd["locale"] or ""], ""
+            # (with date_formats a raw match is reported without a locale, a match after translation with one: the
+            # datetime and period are "what the string parses to")
+            return [dt_to_list(d.replace(tzinfo=None)) if d else [], off_of(d) if d else "naive", dd["period"] or "", (dd["locale"] or "") if not fmts18 else ""], ""
         except BaseException as e:  # noqa
             return [], type(e).__name__
 
